@@ -31,6 +31,7 @@ func init() {
 			{"C14.converters", "converter layers forward on store, backward on read", 3, c14Converters},
 			{"C14.message-body-fresh", "a protocol message's body is its own allocation", 1, func(c *Ctx) { c.messageBodyFresh() }},
 			{"C14.retried-reader-fresh", "a reader consumed inside a retry cycle is created inside it", 1, func(c *Ctx) { c.retriedReaderFresh() }},
+			{"C14.dedup-leader", "the de-duplication layer in front of a chunk server's upstream forgets every finished request, failed ones included (shared with C12)", 3, c12Leader},
 			{"C14.header-before-body", "HTTP handlers set the status before they write any body byte", 26, func(c *Ctx) { c.headerBeforeBody() }},
 			{"C14.server-plumbing", "the chunk server's verify/write/auth options reach the handler arguments they are named after (shared with C15)", 8, c15Plumbing},
 		},
